@@ -7,7 +7,7 @@ import ast
 from ..core import Ctx, RuleResult, finding, short, walk_no_nested
 from ..model import AnalysisError, norm
 from ..mutants import Mut
-from ..rules import dim, fresh, inv, posbound, prog
+from ..rules import fwd, dim, fresh, inv, posbound, prog
 from ..rules.defuse import DefUse
 from ..rules.exc import ExcEngine
 from ..rules.util import callee_name, cfg_of, lin_str, linear, nodes_where
@@ -336,6 +336,7 @@ def run(ctx: Ctx):
         rule_query_size(ctx),
         fresh.run_fresh(p, "C20.7", ["urwid.canvas"], floor=30),
         inv.run_inv(p, "C20.6", floor_classes=2, floor_nontrivial=1, exceptions=INV_EXCEPTIONS, only_classes={"Scrollable", "ScrollBar"}),
+        fwd.run_fwd(p, "C20.8", ("urwid.widget.scrollable", "urwid.widget.listbox"), floor=20, description="the scrolling protocol (get_scrollpos, rows_max, get_first_visible_pos, ...) and the renderers pass the focus flag on: the position is computed for the rendering that is shown"),
     ]
 
 
@@ -354,6 +355,8 @@ MUTANTS = [
     Mut("fits-return-without-reset", _F, "Scrollable.render", "            self._adjust_trim_top(canv, size)\n            return canv", "            return canv", "PAIR|widget.scrollable.Scrollable.render|return without position reset"),
     Mut("top-nudge-without-room", _F, "ScrollBar.render", "if top_height == 0 and top_weight > 0 and maxrow > thumb_height:", "if top_height == 0 and top_weight > 0:", "PAIR|widget.scrollable.ScrollBar.render|top part constant"),
     Mut("twin-top-nudge-room-reordered", _F, "ScrollBar.render", "if top_height == 0 and top_weight > 0 and maxrow > thumb_height:", "if thumb_height < maxrow and top_height == 0 and top_weight > 0:", twin=True),
+    Mut("listbox-scrollpos-ignores-focus", "urwid/widget/listbox.py", "ListBox.get_scrollpos", "self.calculate_visible(self._rendered_size, focus)", "self.calculate_visible(self._rendered_size)", "FOCUS-FWD|widget.listbox.ListBox.get_scrollpos"),
+    Mut("twin-listbox-scrollpos-focus-keyword", "urwid/widget/listbox.py", "ListBox.get_scrollpos", "self.calculate_visible(self._rendered_size, focus)", "self.calculate_visible(self._rendered_size, focus=focus)", twin=True),
     Mut("twin-ensure-bounds-reordered", _F, "Scrollable._adjust_trim_top", "return max(0, min(canv_rows - maxrow, new_trim_top))", "return max(0, min(new_trim_top, canv_rows - maxrow))", twin=True),
     Mut("twin-bottom-reordered", _F, "ScrollBar.render", "bottom_height = maxrow - thumb_height - top_height", "bottom_height = maxrow - top_height - thumb_height", twin=True),
     Mut("twin-mouse-row-direct", _F, "Scrollable.mouse_event", "            row += self._trim_top\n            return ow.mouse_event(ow_size, event, button, col, row, focus)", "            return ow.mouse_event(ow_size, event, button, col, row + self._trim_top, focus)", twin=True),
